@@ -1,6 +1,6 @@
 (* C16: today's code (apply_current) violates the statement; witnesses closed by vm_compute. *)
 From Coq Require Import ZArith List Bool.
-From OG Require Import C16.Model.
+From OG Require Import C16.Model C16.Wf.
 Import ListNotations.
 Open Scope Z_scope.
 
@@ -45,6 +45,19 @@ Proof.
   cbn. tauto.
 Qed.
 Print Assumptions C16_default_dangling_refuted.
+
+(* hence today's step function does not preserve well-formedness: the very theorem proved for the repaired one fails *)
+Theorem C16_current_not_wf :
+  (exists cs, ~ wf (run false false (init_cat 1 true) cs)) /\
+  (exists cs, ~ wf (run true false (init_cat 1 true) cs)) /\
+  (exists cs, ~ wf (run false true (init_cat 1 true) cs)).
+Proof.
+  split; [|split].
+  - exists overlap_witness. intro W. apply wf_b_iff in W. vm_compute in W. discriminate.
+  - exists dangling_witness. intro W. apply wf_b_iff in W. vm_compute in W. discriminate.
+  - exists overlap_witness. intro W. apply wf_b_iff in W. vm_compute in W. discriminate.
+Qed.
+Print Assumptions C16_current_not_wf.
 
 (* the same sequences are well-formed under the repaired step function *)
 Example C16_repaired_on_witnesses :
